@@ -1,10 +1,18 @@
+import SuxModel.Gen.Consts
 /-!
 # `VBuilder::build_loop` as a state machine over fault-injectable lenders (C17, C07)
 
 Mirrors `src/func/vbuilder.rs`: `build_loop` (retry loop, `dup_count`, `local_dup_count`,
-classification of `SolveError` vs fatal errors, `values.rewind()?; keys.rewind()?`) and the
-reading half of `try_seed` (`while let Some(result) = keys.next()`, `values.next().expect(..)?`).
+`max_shard_count`, classification of `SolveError` vs fatal errors,
+`values.rewind()?; keys.rewind()?`) and the reading half of `try_seed`
+(`while let Some(result) = keys.next()`, `values.next().expect(..)?`).
 Everything `try_seed` does after the key pass (store, sharding, solving) is the input `solve`.
+
+The `MaxShardTooBig` arm is the one of the fix of defect D34:
+`if self.check_dups && max_shard_count >= 32 { return Err(BuildError::DuplicateKey) }`, then the
+warning and `max_shard_count += 1`.  The literal is `Gen.maxShardTooBigRetries`, regenerated from
+the source by `tools/extract_consts.py`.  `stepOld` / `buildLoopOld` at the end of the file keep
+the loop as it was before the fix (the arm retried without bound), for the regression theorem.
 -/
 namespace Sux.Func.BL
 
@@ -66,6 +74,8 @@ deriving Repr, DecidableEq
 structure Sys (κ ν F : Type) where
   keys : Lender κ
   vals : Option (Lender ν)
+  /-- the builder's `check_dups` flag -/
+  checkDups : Bool := false
   /-- `try_seed` after the key pass, as a function of the attempt and of the delivered pairs -/
   solve : Nat → List (κ × ν) → Attempt F
 
@@ -87,36 +97,56 @@ def rewindsOk (S : Sys κ ν F) (a : Nat) : Bool :=
 
 inductive Step (F : Type) where
   | done (r : Res F)
-  | again (dup ldup : Nat)
+  | again (dup ldup mst : Nat)
 deriving Repr
 
 /-- the tail of a transient iteration: rewind both lenders, or fail with the rewind error -/
-def retry (S : Sys κ ν F) (a dup' ldup' : Nat) : Step F :=
-  if rewindsOk S a then .again dup' ldup' else .done .errIo
+def retry (S : Sys κ ν F) (a dup' ldup' mst' : Nat) : Step F :=
+  if rewindsOk S a then .again dup' ldup' mst' else .done .errIo
 
-/-- one iteration of the `loop` of `build_loop` -/
-def step (S : Sys κ ν F) (a dup ldup : Nat) : Step F :=
+/-- one iteration of the `loop` of `build_loop`; `dup`, `ldup`, `mst` are `dup_count`,
+    `local_dup_count`, `max_shard_count` -/
+def step (S : Sys κ ν F) (a dup ldup mst : Nat) : Step F :=
   match trySeed S a with
   | .ok f => .done (.ok f)
   | .ioErr => .done .errIo
   | .storeErr => .done .errStore
   | .valueTooLarge => .done .errValueTooLarge
   | .panic => .done .panic
-  | .solveErr .dupSig => if dup ≥ 3 then .done .errDuplicateKey else retry S a (dup + 1) ldup
+  | .solveErr .dupSig => if dup ≥ 3 then .done .errDuplicateKey else retry S a (dup + 1) ldup mst
   | .solveErr .dupLocalSig =>
-    if ldup ≥ 2 then .done .errDuplicateLocalSignatures else retry S a dup (ldup + 1)
-  | .solveErr .maxShardTooBig => retry S a dup ldup
-  | .solveErr .unsolvable => retry S a dup ldup
+    if ldup ≥ 2 then .done .errDuplicateLocalSignatures else retry S a dup (ldup + 1) mst
+  | .solveErr .maxShardTooBig =>
+    if S.checkDups && decide (mst ≥ Gen.maxShardTooBigRetries) then .done .errDuplicateKey
+    else retry S a dup ldup (mst + 1)
+  | .solveErr .unsolvable => retry S a dup ldup mst
 
 /-- `build_loop` from attempt `a` on; returns the result and the number of attempts made -/
-def buildLoop (S : Sys κ ν F) : Nat → Nat → Nat → Nat → Res F × Nat
-  | 0, a, _, _ => (.outOfFuel, a)
-  | fuel + 1, a, dup, ldup =>
-    match step S a dup ldup with
+def buildLoop (S : Sys κ ν F) : Nat → Nat → Nat → Nat → Nat → Res F × Nat
+  | 0, a, _, _, _ => (.outOfFuel, a)
+  | fuel + 1, a, dup, ldup, mst =>
+    match step S a dup ldup mst with
     | .done r => (r, a + 1)
-    | .again dup' ldup' => buildLoop S fuel (a + 1) dup' ldup'
+    | .again dup' ldup' mst' => buildLoop S fuel (a + 1) dup' ldup' mst'
 
-def build (S : Sys κ ν F) (fuel : Nat) : Res F × Nat := buildLoop S fuel 0 0 0
+def build (S : Sys κ ν F) (fuel : Nat) : Res F × Nat := buildLoop S fuel 0 0 0 0
+
+/-! ### the loop before the fix of D34 (regression statement only) -/
+
+/-- `step` with the old `MaxShardTooBig` arm: warn and try another seed, whatever `check_dups` -/
+def stepOld (S : Sys κ ν F) (a dup ldup mst : Nat) : Step F :=
+  match trySeed S a with
+  | .solveErr .maxShardTooBig => retry S a dup ldup mst
+  | _ => step S a dup ldup mst
+
+def buildLoopOld (S : Sys κ ν F) : Nat → Nat → Nat → Nat → Nat → Res F × Nat
+  | 0, a, _, _, _ => (.outOfFuel, a)
+  | fuel + 1, a, dup, ldup, mst =>
+    match stepOld S a dup ldup mst with
+    | .done r => (r, a + 1)
+    | .again dup' ldup' mst' => buildLoopOld S fuel (a + 1) dup' ldup' mst'
+
+def buildOld (S : Sys κ ν F) (fuel : Nat) : Res F × Nat := buildLoopOld S fuel 0 0 0 0
 
 /-! ### Lenders used by the runner -/
 
